@@ -105,6 +105,41 @@ def lin_div_exact(a, k):
     return ('L', a[1] // k, tuple((at, c // k) for at, c in a[2]))
 
 
+def mk_divx(a, k):
+    """Exact quotient a / k in normal form: the part of `a` that is divisible term by term is
+    divided, the rest stays under one quotient atom with a canonical sign:
+    (X + k*Y) / k == Y + X / k   (exact when the whole is)."""
+    r = lin_div_exact(a, k)
+    if r is not None:
+        return r
+    qc, rc = (a[1] // k, 0) if a[1] % k == 0 else (0, a[1])
+    q, rest = [], []
+    for at, c in a[2]:
+        if c % k == 0:
+            q.append((at, c // k))
+        else:
+            rest.append((at, c))
+    restlin = ('L', rc, tuple(rest))
+    d = ('L', 0, ((('divx', restlin, k), 1),))
+    return lin_add(('L', qc, tuple(q)), d)
+
+
+def canon_divx_sign(t):
+    """(-X) / k == -(X / k) for exact quotients: give every quotient atom a leading positive
+    coefficient.  Not done by mk_divx itself: rules read the sign of `(last - first) / k` as written
+    (a length, non-negative); only equality reasoning wants the canonical sign."""
+    def f(a):
+        if a[0] == 'divx':
+            inner = subst(a[1], f, {})
+            if inner[2] and inner[2][0][1] < 0:
+                pos = ('L', -inner[1], tuple((at, -c) for at, c in inner[2]))
+                return ('L', 0, ((('divx', pos, a[2]), -1),))
+            if inner != a[1]:
+                return ('L', 0, ((('divx', inner, a[2]), 1),))
+        return None
+    return subst(t, f, {})
+
+
 def single_atom(t):
     """If t is exactly one atom with coefficient 1 and no constant, return the atom."""
     if t[1] == 0 and len(t[2]) == 1 and t[2][0][1] == 1:
@@ -162,9 +197,7 @@ def subst(t, f, memo):
                 elif tag == 'not':
                     rep = mk_not(na[1])
                 elif tag == 'divx':
-                    rep = lin_div_exact(na[1], na[2])
-                    if rep is None:
-                        rep = atom(na)
+                    rep = mk_divx(na[1], na[2])
                 else:
                     rep = atom(na)
             acc = lin_add(acc, lin_scale(rep, c))
@@ -426,7 +459,7 @@ OPAQUE = 'opaque'
 
 
 class State(object):
-    __slots__ = ('env', 'mem', 'conds', 'rs', 'events', 'stores', 'visits', 'trace', 'exc', 'hv')
+    __slots__ = ('env', 'mem', 'conds', 'rs', 'events', 'stores', 'visits', 'trace', 'exc', 'hv', 'aux')
 
     def __init__(self):
         self.env = {}
@@ -439,6 +472,7 @@ class State(object):
         self.trace = ()
         self.exc = None
         self.hv = {}
+        self.aux = {}
 
     def fork(self):
         s = State()
@@ -452,7 +486,13 @@ class State(object):
         s.trace = self.trace
         s.exc = self.exc
         s.hv = dict(self.hv)
+        s.aux = dict(self.aux)
         return s
+
+
+class RestartWalk(Exception):
+    """An induction-variable assumption made at a loop header turned out not to be inductive;
+    it has been recorded in Engine.noninductive and the walk must be repeated."""
 
 
 class Limits(object):
@@ -477,6 +517,10 @@ class Engine(object):
         self.loops = {}
         self.stats = {'paths': 0, 'cut': 0, 'opaque_big': 0}
         self.fdb_types = None
+        # opt-in extensions used by the operation-law rules (ir_laws); off for every other rule
+        self.precall_hook = None      # called with (st, callee, args, site) before an opaque call's havoc
+        self.coind = False            # co-induction variables at loop headers (see _coind_*)
+        self.noninductive = set()     # (function, header, key) assumptions that failed their step check
 
     # ---- helpers -------------------------------------------------------------------------
     def data_base_types(self):
@@ -674,12 +718,24 @@ class Engine(object):
             blk = f.blocks[lb]
             # loop handling: a header may be entered through a back edge once; on that second
             # entry everything the loop may modify is havocked; a further back edge cuts the path
+            if self.coind and lb in loopbody and not (prev is not None and (prev, lb) in back):
+                st.aux.pop(('assume', lb), None)
+                st.aux.pop(('phipre', lb), None)
+                st.aux.pop(('snap', lb), None)
+                # innermost loops only: a nested loop is iterated at most once by this walker, so the
+                # step check of an enclosing loop would not cover its effect
+                if not any(h != lb and h in loopbody[lb] for h in loopbody):
+                    st.aux[('snap', lb)] = (dict(st.mem), dict(st.hv))
             if prev is not None and (prev, lb) in back:
                 n = st.visits.get(lb, 0)
                 if n >= 1:
                     self.stats['cut'] += 1
+                    if self.coind:
+                        self._coind_check(f, st, lb, prev)
                     continue
                 st.visits[lb] = n + 1
+                if self.coind and ('snap', lb) in st.aux:
+                    self._coind_phis(f, st, lb, prev)
                 hroots = self._havoc_loop(f, st, lb, loopbody[lb])
                 self.emit(st, Ev('havoc', args=hroots, fn=f, site=(f.name, 'loop', lb)), rules, f)
                 havoc_phis = True
@@ -747,6 +803,25 @@ class Engine(object):
                     allr.add(at)
             st.mem.clear()
             return allr | roots
+        keepm = {}
+        if self.coind and ('snap', hdr) in st.aux:
+            smem, shv = st.aux[('snap', hdr)]
+            s0 = State()
+            s0.mem = dict(smem)
+            s0.hv = dict(shv)
+            kappa = atom(('iter', f.name, hdr))
+            assume = dict(st.aux.get(('assume', hdr), {}))
+            for addr in list(st.mem.keys()):
+                if addr in cells or any(at in roots for at, c in addr[2]):
+                    key = ('mem', addr)
+                    if (f.name, hdr, key) in self.noninductive:
+                        continue
+                    v0 = self.load(s0, addr)
+                    c = const_of(lin_sub(st.mem[addr], v0))
+                    if c:
+                        keepm[addr] = lin_add(v0, lin_scale(kappa, c))
+                        assume[key] = (v0, c)
+            st.aux[('assume', hdr)] = assume
         for r in roots:
             st.hv[r] = ('loop', f.name, hdr)
         for addr in list(st.mem.keys()):
@@ -754,7 +829,65 @@ class Engine(object):
                 del st.mem[addr]
                 for at, c in addr[2]:
                     st.hv.setdefault(at, ('loop', f.name, hdr))
+        st.mem.update(keepm)
         return roots
+
+    # ---- co-induction variables (opt-in) ---------------------------------------------------------
+    # At the first re-entry of a loop header every header phi and every memory cell the body writes
+    # whose value after the first iteration differs from its value on entry by a non-zero constant c
+    # is ASSUMED to be  entry + c*k  for one shared fresh iteration count k (instead of being
+    # forgotten).  The generic iteration is then executed from that state, and where its back edge
+    # ends the path the inductive step is CHECKED (value == assumed + c).  A failed check records the
+    # variable in self.noninductive and restarts the walk, so an assumption is only ever used when it
+    # holds on every path of the body: plain induction over the iteration count, no solver.
+    def _coind_phis(self, f, st, hdr, prev):
+        kappa = atom(('iter', f.name, hdr))
+        assume = dict(st.aux.get(('assume', hdr), {}))
+        pre = {}
+        for ins in f.blocks[hdr].instrs:
+            if ins.op != 'phi':
+                break
+            key = ('phi', ins.res)
+            if (f.name, hdr, key) in self.noninductive:
+                continue
+            v0 = st.env.get(ins.res)
+            vb = None
+            for (tok, lab) in ins.incoming:
+                if lab == prev:
+                    vb = self.val(st, tok, f)
+                    break
+            if v0 is None or vb is None:
+                continue
+            c = const_of(lin_sub(vb, v0))
+            if c:
+                assume[key] = (v0, c)
+                pre[ins.res] = lin_add(v0, lin_scale(kappa, c))
+        st.aux[('assume', hdr)] = assume
+        st.aux[('phipre', hdr)] = pre
+
+    def _coind_check(self, f, st, hdr, prev):
+        assume = st.aux.get(('assume', hdr))
+        if not assume:
+            return
+        kappa = atom(('iter', f.name, hdr))
+        bad = []
+        for key, (v0, c) in assume.items():
+            if key[0] == 'mem':
+                now = self.load(st, key[1])
+            else:
+                now = None
+                for ins in f.blocks[hdr].instrs:
+                    if ins.op == 'phi' and ins.res == key[1]:
+                        for (tok, lab) in ins.incoming:
+                            if lab == prev:
+                                now = self.val(st, tok, f)
+            want = lin_add(lin_add(v0, lin_scale(kappa, c)), L(c))
+            if now != want:
+                bad.append(key)
+        if bad:
+            for key in bad:
+                self.noninductive.add((f.name, hdr, key))
+            raise RestartWalk(f.name)
 
     def emit(self, st, ev, rules, f):
         if rules:
@@ -773,7 +906,11 @@ class Engine(object):
         while i < n and instrs[i].op == 'phi':
             ins = instrs[i]
             if havoc_phis:
-                phivals[ins.res] = atom(('loopvar', f.name, blk.label, ins.res))
+                pre = st.aux.get(('phipre', blk.label)) if self.coind else None
+                if pre and ins.res in pre:
+                    phivals[ins.res] = pre[ins.res]
+                else:
+                    phivals[ins.res] = atom(('loopvar', f.name, blk.label, ins.res))
             else:
                 v = None
                 for (tok, lab) in ins.incoming:
@@ -1018,7 +1155,7 @@ class Engine(object):
                 elif 'exact' in (ins.flags or '') or op in ('sdiv',):
                     r = lin_div_exact(a, k)
                     if r is None and 'exact' in (ins.flags or ''):
-                        r = atom(('divx', a, k))
+                        r = mk_divx(a, k)
             env[ins.res] = r if r is not None else atom((op, a, b))
         elif op == 'xor':
             a = self.val(st, ins.a, f)
@@ -1209,6 +1346,8 @@ class Engine(object):
 
     def _havoc_call(self, f, st, name, args, site):
         """An opaque callee may write memory reachable from its pointer arguments."""
+        if self.precall_hook is not None:
+            self.precall_hook(st, name, args, site)
         wr = self.oracle.may_write_fields(name)
         roots = set()
         for a in args:
